@@ -262,4 +262,164 @@ theorem errOnly_conclusion (method : String) (prog : List Step) (hp : prog = [.e
   simp only [Nat.sub_self, Post.eval, Ctx.errs]
   by_cases h0 : code = 0 <;> simp [h0]
 
+theorem runStep_bytes (c : Ctx) (s : RS) :
+    runStep .bytes c s = lift readBytes (fun c b => { c with evs := .int b.length :: c.evs }) c s := by rw [runStep]
+theorem runStep_ifGe (v : Nat) (body : List Step) (c : Ctx) (s : RS) :
+    runStep (.ifGe v body) c s = (if c.ver ≥ v then runSteps body c s else (.ok c, s)) := by rw [runStep]
+
+/-- outcome of a response with exactly one error-code field -/
+def concl (code : Int) : Outcome := if code = 0 then .ok else .kafka code
+
+theorem post_single (c : Ctx) (code : Int) (h : c.errs = [code]) (topic : Bytes) :
+    (Post.firstErr []).eval topic c = (if code = 0 then none else some code) := by
+  simp only [Post.eval, h]
+  by_cases h0 : code = 0 <;> simp [h0]
+
+/-! ### FindCoordinator v0: error_code node_id host port -/
+
+def encFind (code node : Int) (host : Bytes) (port : Int) : Bytes :=
+  encInt 2 code ++ encInt 4 node ++ writeString host ++ encInt 4 port
+
+theorem findCoordinator_conclusion (code node port : Int) (host topic : Bytes)
+    (h1 : Fits 2 code) (h2 : Fits 4 node) (h3 : host.length < 32768) (h4 : Fits 4 port) :
+    opRead (simpleOp "findCoordinator" KV.Gen.ConnLegacy.findCoordinatorResponseV0) 0 topic
+        ⟨encFind code node host port, (encFind code node host port).length⟩ = (concl code, ⟨[], 0⟩) := by
+  have hlen : (encFind code node host port).length = 12 + host.length := by
+    simp [encFind, encInt_length, writeString]; omega
+  unfold opRead
+  simp only [simpleOp, KV.Gen.ConnLegacy.findCoordinatorResponseV0, runSteps_cons, runSteps_nil, runStep_err, runStep_int,
+    runStep_str, lift, hlen]
+  simp only [encFind, List.append_assoc]
+  rw [readInt_enc 2 code _ _ (by omega) h1 (by omega)]
+  simp only
+  rw [readInt_enc 4 node _ _ (by omega) h2 (by omega)]
+  simp only
+  rw [readString_write host _ _ h3 (by omega)]
+  simp only
+  have := readInt_enc 4 port [] (12 + host.length - 2 - 4 - (2 + host.length)) (by omega) h4 (by omega)
+  simp only [List.append_nil] at this
+  rw [this]
+  have hz : 12 + host.length - 2 - 4 - (2 + host.length) - 4 = 0 := by omega
+  simp only [hz]
+  rw [post_single _ code (by simp [Ctx.errs]) topic]
+  unfold concl
+  by_cases h0 : code = 0 <;> simp [h0]
+
+/-! ### SyncGroup v0: error_code assignment(bytes) -/
+
+def encSync (code : Int) (a : Bytes) : Bytes := encInt 2 code ++ writeBytes a
+
+theorem syncGroup_conclusion (code : Int) (a topic : Bytes) (h1 : Fits 2 code) (h2 : a.length < 2147483648) :
+    opRead (simpleOp "syncGroup" KV.Gen.ConnLegacy.syncGroupResponseV0) 0 topic
+        ⟨encSync code a, (encSync code a).length⟩ = (concl code, ⟨[], 0⟩) := by
+  have hlen : (encSync code a).length = 6 + a.length := by simp [encSync, encInt_length, writeBytes]; omega
+  unfold opRead
+  simp only [simpleOp, KV.Gen.ConnLegacy.syncGroupResponseV0, runSteps_cons, runSteps_nil, runStep_err, runStep_bytes, lift, hlen]
+  simp only [encSync]
+  rw [readInt_enc 2 code _ _ (by omega) h1 (by omega)]
+  simp only
+  have := readBytes_write a [] (6 + a.length - 2) h2 (by omega)
+  simp only [List.append_nil] at this
+  rw [this]
+  have hz : 6 + a.length - 2 - (4 + a.length) = 0 := by omega
+  simp only [hz]
+  rw [post_single _ code (by simp [Ctx.errs]) topic]
+  unfold concl
+  by_cases h0 : code = 0 <;> simp [h0]
+
+/-! ### JoinGroup v1: error_code generation_id protocol leader member [member_id metadata] -/
+
+def encMember (m : Bytes × Bytes) : Bytes := writeString m.1 ++ writeBytes m.2
+def MemberOK (m : Bytes × Bytes) : Prop := m.1.length < 32768 ∧ m.2.length < 2147483648
+def gMember (c : Ctx) (m : Bytes × Bytes) : Ctx := { c with evs := .int m.2.length :: .str m.1 :: c.evs }
+
+theorem run_member (m : Bytes × Bytes) (c : Ctx) (r : Bytes) (sz : Nat) (h : MemberOK m) (hs : (encMember m).length ≤ sz) :
+    runSteps [.str, .bytes] c ⟨encMember m ++ r, sz⟩ = (.ok (gMember c m), ⟨r, sz - (encMember m).length⟩) := by
+  have hlen : (encMember m).length = 6 + m.1.length + m.2.length := by
+    simp [encMember, writeString, writeBytes, encInt_length]; omega
+  rw [hlen] at hs ⊢
+  simp only [runSteps_cons, runSteps_nil, runStep_str, runStep_bytes, lift, encMember, List.append_assoc]
+  rw [readString_write m.1 _ sz h.1 (by omega)]
+  simp only
+  rw [readBytes_write m.2 r _ h.2 (by omega)]
+  simp only [gMember]
+  congr 2
+  omega
+
+theorem errs_members (l : List (Bytes × Bytes)) (c : Ctx) : (l.foldl gMember c).errs = c.errs := by
+  induction l generalizing c with
+  | nil => rfl
+  | cons x xs ih => rw [List.foldl_cons, ih]; simp [gMember, Ctx.errs]
+
+def encJoin (code gen : Int) (proto leader member : Bytes) (ms : List (Bytes × Bytes)) : Bytes :=
+  encInt 2 code ++ encInt 4 gen ++ writeString proto ++ writeString leader ++ writeString member ++
+    encInt 4 ms.length ++ (ms.map encMember).flatten
+
+theorem run_join (code gen : Int) (proto leader member : Bytes) (ms : List (Bytes × Bytes)) (c : Ctx) (r : Bytes) (sz : Nat)
+    (hv : c.ver < 2)
+    (h1 : Fits 2 code) (h2 : Fits 4 gen) (h3 : proto.length < 32768) (h4 : leader.length < 32768)
+    (h5 : member.length < 32768) (h6 : ms.length < 2147483648) (h7 : ∀ m ∈ ms, MemberOK m)
+    (hs : (encJoin code gen proto leader member ms).length ≤ sz) :
+    runSteps KV.Gen.ConnLegacy.joinGroupResponse c ⟨encJoin code gen proto leader member ms ++ r, sz⟩ =
+      (.ok (ms.foldl gMember { c with evs := .str member :: .str leader :: .str proto :: .int gen :: .err code :: c.evs,
+                                       lastErr := code }),
+       ⟨r, sz - (encJoin code gen proto leader member ms).length⟩) := by
+  have hlen : (encJoin code gen proto leader member ms).length =
+      16 + proto.length + leader.length + member.length + ((ms.map encMember).flatten).length := by
+    simp [encJoin, encInt_length, writeString]; omega
+  rw [hlen] at hs ⊢
+  simp only [KV.Gen.ConnLegacy.joinGroupResponse, runSteps_cons, runSteps_nil, runStep_ifGe, runStep_err, runStep_int,
+    runStep_str, runStep_arr, lift]
+  have hv' : ¬ (c.ver ≥ 2) := by omega
+  simp only [hv', ↓reduceIte]
+  simp only [encJoin, List.append_assoc]
+  rw [readInt_enc 2 code _ _ (by omega) h1 (by omega)]
+  simp only
+  rw [readInt_enc 4 gen _ _ (by omega) h2 (by omega)]
+  simp only
+  rw [readString_write proto _ _ h3 (by omega)]
+  simp only
+  rw [readString_write leader _ _ h4 (by omega)]
+  simp only
+  rw [readString_write member _ _ h5 (by omega)]
+  simp only
+  rw [readInt_enc 4 _ _ _ (by omega) (fits4 _ h6) (by omega)]
+  simp only [Int.toNat_natCast]
+  rw [iter_list (runSteps [.str, .bytes]) encMember gMember MemberOK run_member ms _ r _ h7 (by omega)]
+  dsimp only
+  congr 2
+  omega
+
+theorem joinGroup_conclusion (code gen : Int) (proto leader member topic : Bytes) (ms : List (Bytes × Bytes))
+    (h1 : Fits 2 code) (h2 : Fits 4 gen) (h3 : proto.length < 32768) (h4 : leader.length < 32768)
+    (h5 : member.length < 32768) (h6 : ms.length < 2147483648) (h7 : ∀ m ∈ ms, MemberOK m) :
+    opRead (simpleOp "joinGroup" KV.Gen.ConnLegacy.joinGroupResponse) 1 topic
+        ⟨encJoin code gen proto leader member ms, (encJoin code gen proto leader member ms).length⟩ = (concl code, ⟨[], 0⟩) := by
+  have hr := run_join code gen proto leader member ms { ver := 1 } [] _ (by simp) h1 h2 h3 h4 h5 h6 h7 (Nat.le_refl _)
+  simp only [List.append_nil, Nat.sub_self] at hr
+  unfold opRead
+  simp only [simpleOp, hr]
+  rw [post_single _ code (by rw [errs_members]; simp [Ctx.errs]) topic]
+  unfold concl
+  by_cases h0 : code = 0 <;> simp [h0]
+
+
+/-! ### the reference encoders of Spec/GroupWire.lean (strings) are these byte-level encoders -/
+open KV.Spec.GroupWire in
+theorem spec_findCoordinatorResp (c : Int) (host : String) (port : Int) :
+    findCoordinatorResp c host port = encFind c 1 host.toUTF8.toList port := by
+  simp [findCoordinatorResp, encFind, str, i16, i32, writeString]
+
+open KV.Spec.GroupWire in
+theorem spec_syncGroupResp (c : Int) (a : Bytes) : syncGroupResp c a = encSync c a := by
+  simp [syncGroupResp, encSync, bytes, i16, i32, writeBytes]
+
+open KV.Spec.GroupWire in
+theorem spec_joinGroupResp (c g : Int) (proto leader member : String) (ms : List (String × List String)) :
+    joinGroupResp c g proto leader member ms =
+      encJoin c g proto.toUTF8.toList leader.toUTF8.toList member.toUTF8.toList
+        (ms.map fun m => (m.1.toUTF8.toList, subscription m.2)) := by
+  simp [joinGroupResp, encJoin, arr, str, bytes, i16, i32, writeString, encMember, writeBytes, List.map_map, Function.comp_def]
+
+
 end KV.GroupResp
